@@ -12,11 +12,12 @@ import Mathlib.Algebra.Order.Field.Basic
 
 The optimizers are vendored and not modelled (partial).  Proved over an arbitrary linear ordered field `K`:
 
-* decision logic of `Assembler::assemble()` / `track()`: whenever they report success the error norm of the state
-  left behind is within tolerance (`assemble_ok_feasible`, `track_ok_feasible`), the returned value is the goal of
-  that state — the initial or the optimizer's (`assemble_ok_value`), from a feasible start `assemble()` never returns
-  a worse goal (`assemble_ok_not_worse`) — whatever the optimizer did and whether or not it threw; `track()` has no
-  such rule (`track_may_worsen`);
+* decision logic of `Assembler::assemble()` / `track()`: complete case analysis of a success (`assemble_ok_cases`); the error
+  value the code HOLDS is within tolerance (`assemble_ok_held_error_within_tol`) — a fact about the variable `tolAchieved`:
+  it is the measured error of the state left behind only when the revert rule did not fire (`assemble_ok_measured`); in the
+  revert branch it is the error measured before `prescribeQ` (finding `assemble.revert.prescribed.qerr`); the returned value
+  is the goal of the initial or of the optimizer's state (`assemble_ok_value`); from a feasible start `assemble()` never
+  returns a worse goal (`assemble_ok_not_worse`); `track_ok_feasible`; `track()` has no revert rule (`track_may_worsen`);
 * goal-function algebra: `weightedGoal_nonneg`, `weightedGoal_eq_zero_iff`, `distSq_eq_zero_iff`,
   `markersGoal_eq_zero_iff` (zero ⇔ every weighted marker sits on its observation), `osensorsGoal_eq_zero_iff`;
 * free-q bookkeeping: `mem_freeQs`, `freeQs_sorted`;
@@ -34,18 +35,25 @@ theorem assembleDecide_main (optThrew : Bool) (tol initErr initGoal : K) (post :
     (h1 : ¬(initErr ≤ tol ∧ initGoal ≤ tol * tol)) (h2 : ¬(optThrew = true ∧ tol < post.err)) :
     assembleDecide optThrew tol initErr initGoal post =
       if initErr ≤ tol ∧ initGoal < post.goal then
-        (if tol < initErr then Outcome.failed else Outcome.ok initGoal initErr)
-      else (if tol < post.err then Outcome.failed else Outcome.ok post.goal post.err) := by
+        (if tol < initErr then Outcome.failed else Outcome.ok initGoal initErr true)
+      else (if tol < post.err then Outcome.failed else Outcome.ok post.goal post.err false) := by
   unfold assembleDecide
   rw [if_neg h1, if_neg h2]
   by_cases ha : initErr ≤ tol <;> by_cases hb : initGoal < post.goal <;> simp [ha, hb]
 
-/-- success ⇒ the state left in the Assembler has error norm within tolerance -/
-theorem assemble_ok_feasible (optThrew : Bool) (tol initErr initGoal : K) (post : Seen K) (g e : K)
-    (h : assembleDecide optThrew tol initErr initGoal post = .ok g e) : e ≤ tol := by
+/-- complete case analysis of a successful `assemble()`: (a) short circuit — nothing was touched, value and error are those
+of the incoming state; (b) normal — value and error are those measured on the optimizer's state, which is the state left
+behind; (c) revert — value and error are the INITIAL ones (`initErr ≤ tol`, optimizer's goal worse).  In (c) the error was
+measured before `prescribeQ`; the code does not re-measure the state it leaves (initial free q's + newly prescribed q's). -/
+theorem assemble_ok_cases (optThrew : Bool) (tol initErr initGoal : K) (post : Seen K) (g e : K) (r : Bool)
+    (h : assembleDecide optThrew tol initErr initGoal post = .ok g e r) :
+    (r = false ∧ g = initGoal ∧ e = initErr ∧ initErr ≤ tol ∧ initGoal ≤ tol * tol) ∨
+    (r = false ∧ g = post.goal ∧ e = post.err ∧ post.err ≤ tol) ∨
+    (r = true ∧ g = initGoal ∧ e = initErr ∧ initErr ≤ tol ∧ initGoal < post.goal) := by
   by_cases h1 : initErr ≤ tol ∧ initGoal ≤ tol * tol
   · unfold assembleDecide at h
-    rw [if_pos h1] at h; injection h with hg he; rw [← he]; exact h1.1
+    rw [if_pos h1] at h; injection h with hg he hr
+    exact Or.inl ⟨hr.symm, hg.symm, he.symm, h1.1, h1.2⟩
   · by_cases h2 : optThrew = true ∧ tol < post.err
     · unfold assembleDecide at h; rw [if_neg h1, if_pos h2] at h; cases h
     · rw [assembleDecide_main optThrew tol initErr initGoal post h1 h2] at h
@@ -53,72 +61,79 @@ theorem assemble_ok_feasible (optThrew : Bool) (tol initErr initGoal : K) (post 
       · rw [if_pos hr] at h
         by_cases ht : tol < initErr
         · rw [if_pos ht] at h; cases h
-        · rw [if_neg ht] at h; injection h with hg he; rw [← he]; exact hr.1
+        · rw [if_neg ht] at h; injection h with hg he hrr
+          exact Or.inr (Or.inr ⟨hrr.symm, hg.symm, he.symm, hr.1, hr.2⟩)
       · rw [if_neg hr] at h
         by_cases ht : tol < post.err
         · rw [if_pos ht] at h; cases h
-        · rw [if_neg ht] at h; injection h with hg he; rw [← he]; exact not_lt.mp ht
+        · rw [if_neg ht] at h; injection h with hg he hrr
+          exact Or.inr (Or.inl ⟨hrr.symm, hg.symm, he.symm, not_lt.mp ht⟩)
 
-/-- success ⇒ the returned value is the goal of the initial state or of the optimizer's state, and the reported
-error norm is the matching one -/
-theorem assemble_ok_value (optThrew : Bool) (tol initErr initGoal : K) (post : Seen K) (g e : K)
-    (h : assembleDecide optThrew tol initErr initGoal post = .ok g e) :
+/-- success ⇒ the error value the code HOLDS (`tolAchieved`) is within tolerance.  This is a fact about that variable; it
+is the measured error of the state left behind only when the revert rule did not fire (`assemble_ok_measured`). -/
+theorem assemble_ok_held_error_within_tol (optThrew : Bool) (tol initErr initGoal : K) (post : Seen K) (g e : K) (r : Bool)
+    (h : assembleDecide optThrew tol initErr initGoal post = .ok g e r) : e ≤ tol := by
+  rcases assemble_ok_cases optThrew tol initErr initGoal post g e r h with ⟨_, _, he, h1, _⟩ | ⟨_, _, he, h1⟩ | ⟨_, _, he, h1, _⟩ <;>
+    rw [he] <;> exact h1
+
+/-- without a revert, value and error are those measured on the state `assemble()` leaves behind (the untouched incoming
+state on a short circuit, the optimizer's state otherwise) -/
+theorem assemble_ok_measured (optThrew : Bool) (tol initErr initGoal : K) (post : Seen K) (g e : K)
+    (h : assembleDecide optThrew tol initErr initGoal post = .ok g e false) :
+    (g = initGoal ∧ e = initErr ∧ initGoal ≤ tol * tol) ∨ (g = post.goal ∧ e = post.err) := by
+  rcases assemble_ok_cases optThrew tol initErr initGoal post g e false h with ⟨_, hg, he, _, h2⟩ | ⟨_, hg, he, _⟩ | ⟨hr, _⟩
+  · exact Or.inl ⟨hg, he, h2⟩
+  · exact Or.inr ⟨hg, he⟩
+  · cases hr
+
+/-- success ⇒ the returned value is the goal of the initial state or of the optimizer's state -/
+theorem assemble_ok_value (optThrew : Bool) (tol initErr initGoal : K) (post : Seen K) (g e : K) (r : Bool)
+    (h : assembleDecide optThrew tol initErr initGoal post = .ok g e r) :
     (g = initGoal ∧ e = initErr) ∨ (g = post.goal ∧ e = post.err) := by
-  by_cases h1 : initErr ≤ tol ∧ initGoal ≤ tol * tol
-  · unfold assembleDecide at h
-    rw [if_pos h1] at h; injection h with hg he; exact Or.inl ⟨hg.symm, he.symm⟩
-  · by_cases h2 : optThrew = true ∧ tol < post.err
-    · unfold assembleDecide at h; rw [if_neg h1, if_pos h2] at h; cases h
-    · rw [assembleDecide_main optThrew tol initErr initGoal post h1 h2] at h
-      by_cases hr : initErr ≤ tol ∧ initGoal < post.goal
-      · rw [if_pos hr] at h
-        by_cases ht : tol < initErr
-        · rw [if_pos ht] at h; cases h
-        · rw [if_neg ht] at h; injection h with hg he; exact Or.inl ⟨hg.symm, he.symm⟩
-      · rw [if_neg hr] at h
-        by_cases ht : tol < post.err
-        · rw [if_pos ht] at h; cases h
-        · rw [if_neg ht] at h; injection h with hg he; exact Or.inr ⟨hg.symm, he.symm⟩
+  rcases assemble_ok_cases optThrew tol initErr initGoal post g e r h with ⟨_, hg, he, _⟩ | ⟨_, hg, he, _⟩ | ⟨_, hg, he, _⟩
+  · exact Or.inl ⟨hg, he⟩
+  · exact Or.inr ⟨hg, he⟩
+  · exact Or.inl ⟨hg, he⟩
 
 /-- **From a feasible start `assemble()` never returns a worse goal**, whatever the optimizer produced -/
-theorem assemble_ok_not_worse (optThrew : Bool) (tol initErr initGoal : K) (post : Seen K) (g e : K)
-    (hfeas : initErr ≤ tol) (h : assembleDecide optThrew tol initErr initGoal post = .ok g e) : g ≤ initGoal := by
-  by_cases h1 : initErr ≤ tol ∧ initGoal ≤ tol * tol
-  · unfold assembleDecide at h
-    rw [if_pos h1] at h; injection h with hg he; rw [← hg]
-  · by_cases h2 : optThrew = true ∧ tol < post.err
-    · unfold assembleDecide at h; rw [if_neg h1, if_pos h2] at h; cases h
-    · rw [assembleDecide_main optThrew tol initErr initGoal post h1 h2] at h
-      by_cases hr : initErr ≤ tol ∧ initGoal < post.goal
-      · rw [if_pos hr] at h
+theorem assemble_ok_not_worse (optThrew : Bool) (tol initErr initGoal : K) (post : Seen K) (g e : K) (r : Bool)
+    (hfeas : initErr ≤ tol) (h : assembleDecide optThrew tol initErr initGoal post = .ok g e r) : g ≤ initGoal := by
+  have hcases := assemble_ok_cases optThrew tol initErr initGoal post g e r h
+  rcases hcases with ⟨_, hg, _⟩ | ⟨hr, hg, he, hle⟩ | ⟨_, hg, _⟩
+  · rw [hg]
+  · -- normal branch: the revert rule did not fire although the start was feasible, so the goal did not get worse
+    rw [hg]
+    by_contra hw
+    have hlt : initGoal < post.goal := not_le.mp hw
+    by_cases h1 : initErr ≤ tol ∧ initGoal ≤ tol * tol
+    · unfold assembleDecide at h; rw [if_pos h1] at h; injection h with hg' _ _
+      rw [hg] at hg'; rw [hg'] at hlt; exact lt_irrefl _ hlt
+    · by_cases h2 : optThrew = true ∧ tol < post.err
+      · exact absurd hle (not_le.mpr h2.2)
+      · rw [assembleDecide_main optThrew tol initErr initGoal post h1 h2, if_pos ⟨hfeas, hlt⟩] at h
         by_cases ht : tol < initErr
         · rw [if_pos ht] at h; cases h
-        · rw [if_neg ht] at h; injection h with hg he; rw [← hg]
-      · rw [if_neg hr] at h
-        by_cases ht : tol < post.err
-        · rw [if_pos ht] at h; cases h
-        · rw [if_neg ht] at h; injection h with hg he; rw [← hg]
-          have : ¬ initGoal < post.goal := fun hw => hr ⟨hfeas, hw⟩
-          exact not_lt.mp this
+        · rw [if_neg ht] at h; injection h with _ _ hrr; rw [hr] at hrr; cases hrr
+  · rw [hg]
 
 /-- a short circuit happens exactly when the start is within tolerance and its goal is below `tol²`; nothing moves -/
 theorem assemble_short_circuit (optThrew : Bool) (tol initErr initGoal : K) (post : Seen K)
     (h1 : initErr ≤ tol) (h2 : initGoal ≤ tol * tol) :
-    assembleDecide optThrew tol initErr initGoal post = .ok initGoal initErr := by
+    assembleDecide optThrew tol initErr initGoal post = .ok initGoal initErr false := by
   unfold assembleDecide; rw [if_pos ⟨h1, h2⟩]
 
-theorem track_ok_feasible (optThrew : Bool) (tol initErr initGoal : K) (post : Seen K) (g e : K)
-    (h : trackDecide optThrew tol initErr initGoal post = .ok g e) : e ≤ tol := by
+theorem track_ok_feasible (optThrew : Bool) (tol initErr initGoal : K) (post : Seen K) (g e : K) (r : Bool)
+    (h : trackDecide optThrew tol initErr initGoal post = .ok g e r) : e ≤ tol := by
   unfold trackDecide at h
   by_cases h1 : initErr ≤ tol ∧ initGoal ≤ tol * tol
-  · rw [if_pos h1] at h; injection h with hg he; rw [← he]; exact h1.1
+  · rw [if_pos h1] at h; injection h with hg he _; rw [← he]; exact h1.1
   · rw [if_neg h1] at h
     by_cases h2 : optThrew = true ∧ tol < post.err
     · rw [if_pos h2] at h; cases h
     · rw [if_neg h2] at h
       by_cases h3 : tol < post.err
       · rw [if_pos h3] at h; cases h
-      · rw [if_neg h3] at h; injection h with hg he; rw [← he]; exact not_lt.mp h3
+      · rw [if_neg h3] at h; injection h with hg he _; rw [← he]; exact not_lt.mp h3
 
 /-- whether the optimizer threw cannot change what `track()` does -/
 theorem track_optThrew_irrelevant (tol initErr initGoal : K) (post : Seen K) :
@@ -132,7 +147,7 @@ theorem track_optThrew_irrelevant (tol initErr initGoal : K) (post : Seen K) :
 logic gives no guarantee; the tie measures that the optimizer does not do this) -/
 theorem track_may_worsen :
     ∃ (tol initErr initGoal : ℚ) (post : Seen ℚ) (g e : ℚ),
-      initErr ≤ tol ∧ trackDecide false tol initErr initGoal post = .ok g e ∧ initGoal < g := by
+      initErr ≤ tol ∧ trackDecide false tol initErr initGoal post = .ok g e false ∧ initGoal < g := by
   refine ⟨1, 0, 2, ⟨0, 3⟩, 3, 0, by norm_num, ?_, by norm_num⟩
   norm_num [trackDecide]
 
@@ -337,8 +352,8 @@ theorem contract_sound (tol relax slack initErr initGoal ret finalErr finalGoal 
 
 /-! ## non-vacuity -/
 
-example : assembleDecide (K := ℚ) false 1 0 5 ⟨0, 7⟩ = .ok 5 0 := by norm_num [assembleDecide]       -- revert
-example : assembleDecide (K := ℚ) false 1 3 5 ⟨0, 7⟩ = .ok 7 0 := by norm_num [assembleDecide]       -- infeasible start: goal may rise
+example : assembleDecide (K := ℚ) false 1 0 5 ⟨0, 7⟩ = .ok 5 0 true := by norm_num [assembleDecide]       -- revert
+example : assembleDecide (K := ℚ) false 1 3 5 ⟨0, 7⟩ = .ok 7 0 false := by norm_num [assembleDecide]       -- infeasible start: goal may rise
 example : assembleDecide (K := ℚ) true 1 0 5 ⟨2, 7⟩ = .failed := by norm_num [assembleDecide]         -- optimizer threw
 example : weightedGoal (K := ℚ) [(2, 3), (1, 0)] = 1 := by norm_num [weightedGoal]
 
